@@ -105,6 +105,7 @@ Definition check_1311 (fs : list field) : verdict :=
     | None => VSkip
     | Some m =>
       if negb (bytes_eqb (encode_msg m) b) then VSkip else          (* unknown fields / non-canonical wire form *)
+      if overrun m then VSkip else                                  (* C08 finding 805: p2j's list / map loops run past the enclosing message; such messages are outside this check (the harness avoids them, this selector is the authority) *)
       let m0 := m_drop_negzero m in
       match model_rt Sc root m0 with
       | None => VSkip                                               (* no JSON image, or the j2p spec leaves its reading open *)
@@ -139,8 +140,8 @@ Definition check_1312 (fs : list field) : verdict :=
     | None => VDrift 10                                              (* p2j returned text that is not JSON: C08's business *)
     | Some j =>
       if negb (json_utf8 j) then VSkip else
-      let nz := json_has_negzero j in
-      match pdenote (negb (dis2 =? 0)) Sc root (if nz then json_drop_negzero j else j) with
+      let nz := json_has_negzero false j in
+      match pdenote (negb (dis2 =? 0)) Sc root (if nz then json_drop_negzero false j else j) with
       | ROk _ =>
         if (ec2 =? 2) || (ec2 =? 4) || (ec3 =? 2) || (ec3 =? 4) then VBad 9 [] else
         if negb (ec2 =? 0) then VBad 11 [] else
@@ -150,7 +151,7 @@ Definition check_1312 (fs : list field) : verdict :=
         | Some j2 =>
           if json_same j j2 then VOk else
           (* the value is a Protobuf message: compare the denotations (an empty array / object is an absent field) *)
-          match pdenote false Sc root (json_drop_negzero j), pdenote false Sc root (json_drop_negzero j2) with
+          match pdenote false Sc root (json_drop_negzero false j), pdenote false Sc root (json_drop_negzero false j2) with
           | ROk m1, ROk m2 =>
             if negb (msg_eqv m1 m2) then VBad 14 [FB J]
             else if json_count_negzero j =? json_count_negzero j2 then VOk
